@@ -1102,7 +1102,7 @@ def build_all(ctx):
     properties); each file's theorems are discharged iff its own .vo was produced by this build"""
     import time
     from .common import COQ, theorems_in
-    rels = ['props/C19.v', 'props/C19_state.v', 'props/C19_solver.v', 'props/C19_driver.v']
+    rels = ['props/C19.v', 'props/C19_state.v', 'props/C19_solver.v', 'props/C19_driver.v', 'props/C19_poly.v']
     t0 = time.time() - 1
     for rel in rels[1:]:
         try:
